@@ -28,8 +28,9 @@ def lanelet(F, lid, y, **kw):
     return F.new(Lanelet, np.array([[0.0, y + 1], [1.0, y + 1]]), np.array([[0.0, y + 0.5], [1.0, y + 0.5]]), np.array([[0.0, y], [1.0, y]]), lid, **kw)
 
 
-def template(F):
-    names = ["L1", "L2", "L3", "L4", "S1", "S2", "T1", "T2", "T3", "I", "INC", "INC2"]
+def template(F, crosswalk=False):
+    """crosswalk=True: a fifth lanelet L5 without any lanelet relation that only the intersection refers to (as a crossing)"""
+    names = ["L1", "L2", "L3", "L4", "S1", "S2", "T1", "T2", "T3", "I", "INC", "INC2"] + (["L5"] if crosswalk else [])
     ids = {n: new_id(F, n) for n in names}
     vals = list(ids.values())
     for i in range(len(vals)):
@@ -54,9 +55,11 @@ def template(F):
     inc = F.new(IntersectionIncomingElement, i["INC"], F.set([i["L1"]]), F.set([]), F.set([i["L2"]]), F.set([i["L3"]]))
     # a right-turn-only incoming (no straight, no left successor)
     inc2 = F.new(IntersectionIncomingElement, i["INC2"], F.set([i["L3"]]), F.set([i["L2"]]), F.set([]), F.set([]), i["INC"])
-    inter = F.new(Intersection, i["I"], [inc, inc2], F.set([i["L4"]]))
+    if crosswalk:
+        la["L5"] = lanelet(F, i["L5"], 8.0, lanelet_type={LaneletType.CROSSWALK})
+    inter = F.new(Intersection, i["I"], [inc, inc2], F.set([i["L4"]] + ([i["L5"]] if crosswalk else [])))
     net = F.new(LaneletNetwork)
-    for k in ("L1", "L2", "L3", "L4"):
+    for k in la:
         F.ok(lambda k=k: F.method(net, "add_lanelet", la[k]))
     for k in ("S1", "S2"):
         F.ok(lambda k=k: F.method(net, "add_traffic_sign", mk_sign(F, i[k]), set()))
@@ -156,17 +159,20 @@ def snapshot_lanelets(F, la):
     return d
 
 
-@register
 class RemoveLanelet(Contract):
     prop = "C10"
     target = LN + "remove_lanelet"
     unroll = UNROLL
     describe = "after removing lanelet x (any id): no dangling reference; remaining lanelets keep all relations minus x; nothing else removed"
 
+    def __init__(self, rtree):
+        self.rtree = rtree
+        self.case = "rtree=%s, network with a crossing-only lanelet" % rtree
+
     def build(self, F):
-        net, ids, la = template(F)
+        net, ids, la = template(F, crosswalk=True)
         x = new_id(F, "x")
-        return {"net": net, "ids": ids, "la": la, "x": x, "args": [net, x], "before": snapshot_lanelets(F, la),
+        return {"net": net, "ids": ids, "la": la, "x": x, "args": [net, x] + ([] if self.rtree else [False]), "before": snapshot_lanelets(F, la),
                 "signs": existing(F, net)["sign"], "lights": existing(F, net)["light"]}
 
     def post(self, F, inp, out):
@@ -182,6 +188,10 @@ class RemoveLanelet(Contract):
                                                                                z3.BoolVal(len(F.items(F.attr(net, "intersections"))) == 1)))
 
 
+register(RemoveLanelet(True))
+register(RemoveLanelet(False))
+
+
 @register
 class RemoveTwoLanelets(Contract):
     prop = "C10"
@@ -192,7 +202,7 @@ class RemoveTwoLanelets(Contract):
     describe = "after removing lanelets x and then y: no dangling reference; remaining lanelets keep all relations minus {x, y}"
 
     def build(self, F):
-        net, ids, la = template(F)
+        net, ids, la = template(F, crosswalk=True)
         x, y = new_id(F, "x"), new_id(F, "y")
         return {"net": net, "ids": ids, "la": la, "x": x, "y": y, "args": [], "before": snapshot_lanelets(F, la)}
 
